@@ -31,47 +31,114 @@ def check(prog, run):
     pad(prog, run)
 
 
+def _is_nan(prog, pf, e):
+    """np.nan / np.repeat(np.nan, n) / np.full(n, np.nan) / np.full_like(x, np.nan) / a local holding one of them"""
+    if isinstance(e, ast.Attribute) and e.attr.lower() == "nan":
+        return True
+    if isinstance(e, ast.Call):
+        nm = astq.callee_name(prog, pf, e)
+        if nm in ("numpy.repeat",) and e.args:
+            return _is_nan(prog, pf, e.args[0])
+        if nm in ("numpy.full", "numpy.full_like") and len(e.args) >= 2:
+            return _is_nan(prog, pf, e.args[1])
+        if nm in ("float",) and e.args and isinstance(e.args[0], ast.Constant) and str(e.args[0].value).lower() == "nan":
+            return True
+    if isinstance(e, ast.BinOp) and isinstance(e.op, ast.Mult):
+        return _is_nan(prog, pf, e.left) or _is_nan(prog, pf, e.right)
+    return False
+
+
+def _blank_sites(prog, pf, e):
+    """[(condition, value when true, value when false, node)] of np.where(c, a, b) / (a if c else b) inside e"""
+    out = []
+    for c in ast.walk(e):
+        if isinstance(c, ast.Call) and astq.callee_name(prog, pf, c) == "numpy.where" and len(c.args) == 3:
+            out.append((c.args[0], c.args[1], c.args[2], c))
+        elif isinstance(c, ast.IfExp):
+            out.append((c.test, c.body, c.orelse, c))
+    return out
+
+
 def blank(prog, run):
     fi = prog.func(POLY)
     f = rel(prog.mods[fi.mod].path)
-    pf = astq.PrunedFn(fi, {"methodSy": "per"})
+    pf = astq.IndexedFn(astq.PrunedFn(fi, {"methodSy": "per"}))
     rets = [n for n in ast.walk(pf.node) if isinstance(n, ast.Return) and isinstance(n.value, ast.Tuple)]
     r = rets[-1]
-    lam = astq.expr_at(pf, r, r.value.elts[3])
-    phi = astq.expr_at(pf, r, r.value.elts[2])
-    def wheres(e):
-        return [c for c in ast.walk(e) if isinstance(c, ast.Call) and astq.callee_name(prog, pf, c) == "numpy.where" and len(c.args) == 3]
-    wl, wp = wheres(lam), wheres(phi)
-    if not wl:
-        run.ob("R-blank", fi.qual, "eigenvalue blanking", False, "returned eigenvalues are not blanked with np.where(Re > 0, nan, .)", witness="missing", file=f, node=r)
+    lam = astq.canon_elem(prog, pf, astq.expr_at(pf, r, r.value.elts[3]))
+    phi = astq.canon_elem(prog, pf, astq.expr_at(pf, r, r.value.elts[2]))
+    inplace = [n for n in ast.walk(pf.node) if isinstance(n, ast.Assign) and isinstance(n.targets[0], ast.Subscript) and _is_nan(prog, pf, n.value)]
+    sl = [x for x in _blank_sites(prog, pf, lam) if _is_nan(prog, pf, x[1]) or _is_nan(prog, pf, x[2])]
+    sp = [x for x in _blank_sites(prog, pf, phi) if _is_nan(prog, pf, x[1]) or _is_nan(prog, pf, x[2])]
+    if not sl:
+        run.ob("R-blank", fi.qual, "eigenvalue blanking", None if inplace else False,
+               "returned eigenvalues are not blanked with np.where(Re > 0, nan, .)" + (" (in-place NaN stores are not modelled)" if inplace else ""), witness="missing", file=f, node=r)
         return
-    def pred(c):
-        """(array expr dump of X in real(X[..]) > 0, is_gt_zero)"""
-        t = c.args[0]
-        if isinstance(t, ast.Compare) and len(t.ops) == 1 and isinstance(t.ops[0], ast.Gt) and isinstance(t.comparators[0], ast.Constant) and t.comparators[0].value == 0:
-            a = t.left
-            inner = a.args[0] if isinstance(a, ast.Call) and astq.callee_name(prog, pf, a) == "numpy.real" and a.args else (a.value if isinstance(a, ast.Attribute) and a.attr == "real" else None)
-            if inner is not None:
-                base = inner.value if isinstance(inner, ast.Subscript) else inner
-                return astq.dump(base), inner
-        return None, None
-    bl, il = pred(wl[0])
-    okl = bl is not None and isinstance(wl[0].args[1], ast.Attribute) and wl[0].args[1].attr.lower() == "nan" and astq.dump(wl[0].args[2]) == bl
-    run.ob("R-blank", fi.qual, "eigenvalues: where(Re(lambda) > 0, nan, lambda)", okl, f"`{astq.src(wl[0], 90)}`", witness=astq.src(wl[0], 80), file=f, node=r)
-    if not wp:
-        run.ob("R-blank", fi.qual, "eigenvector blanking", False, "mode shapes are formed from un-blanked eigenvectors: unstable poles keep their shape", witness="missing", file=f, node=r)
+
+    def gt_zero_real(t):
+        """X for the predicate X.real > 0 (or 0 < X.real), else None"""
+        if isinstance(t, ast.Compare) and len(t.ops) == 1:
+            l, rr, op = t.left, t.comparators[0], t.ops[0]
+            if isinstance(op, ast.Lt):
+                l, rr, op = rr, l, ast.Gt()
+            if isinstance(op, ast.Gt) and isinstance(rr, ast.Constant) and rr.value == 0 and isinstance(l, ast.Attribute) and l.attr == "real":
+                return l.value
+        return None
+    cl, tl, fl, nl = sl[0]
+    xl = gt_zero_real(cl)
+    okl = None
+    if xl is not None:
+        okl = _is_nan(prog, pf, tl) and astq.dump(fl) == astq.dump(xl)
+    elif isinstance(cl, ast.Compare):
+        okl = False
+    run.ob("R-blank", fi.qual, "eigenvalues: where(Re(lambda) > 0, nan, lambda)", okl, f"`{astq.src(nl, 90)}`", witness=astq.src(nl, 80), file=f, node=r)
+    if not sp:
+        # the mode shapes do not pass through any NaN-producing selection
+        run.ob("R-blank", fi.qual, "eigenvector blanking", None if inplace else False,
+               "mode shapes are formed from un-blanked eigenvectors: unstable poles keep their shape" + (" (in-place NaN stores are not modelled)" if inplace else ""),
+               witness="missing", file=f, node=r)
     else:
-        bp, ip = pred(wp[0])
-        same = bp is not None and bp == bl
+        cp, tp, fp_, np_ = sp[0]
+        # the comprehension / loop variable that numbers the columns
+        comp = None
+        for c in ast.walk(phi):
+            if isinstance(c, (ast.ListComp, ast.GeneratorExp)) and any(x is np_ for x in ast.walk(c)):
+                comp = c
+        k = comp.generators[0].target.id if comp is not None and isinstance(comp.generators[0].target, ast.Name) else None
+        same = okc = None
+        if k is not None:
+            gen, hits = astq.strip_index(cp, k)
+            kept = fp_ if _is_nan(prog, pf, tp) else tp
+            kgen, khits = astq.strip_index(kept, k)
+            same = astq.dump(gen) == astq.dump(cl) if hits else None
+            if _is_nan(prog, pf, fp_) and not _is_nan(prog, pf, tp):
+                same = False if same else same       # NaN on the stable side
+            isvec = "eig(" in astq.src(kgen) and astq.src(kgen).endswith("[1]")
+            if khits:
+                okc = isvec and khits[0][1] == 1 and len(khits) == 1
+            elif isinstance(kept, ast.Subscript):
+                okc = False if isvec or "eig(" in astq.src(kept) else None
+            why_c = f"kept `{astq.src(kept, 60)}` under `{astq.src(cp, 40)}`"
+        else:
+            # broadcast form: np.where(pred, nan, V) / np.where(pred[None, :], nan, V)
+            c0 = cp
+            if isinstance(c0, ast.Subscript) and isinstance(c0.slice, ast.Tuple) and len(c0.slice.elts) == 2:
+                a0, a1 = c0.slice.elts
+                if isinstance(a0, ast.Constant) and a0.value is None and astq.is_full_slice(a1):
+                    c0 = c0.value
+                elif astq.is_full_slice(a0) and isinstance(a1, ast.Constant) and a1.value is None:
+                    okc = False          # predicate broadcast along the rows, not the columns
+                    c0 = c0.value
+            same = astq.dump(c0) == astq.dump(cl)
+            kept = fp_ if _is_nan(prog, pf, tp) else tp
+            if okc is None:
+                okc = True if ("eig(" in astq.src(kept) and astq.src(kept).endswith("[1]")) else None
+            why_c = f"kept `{astq.src(kept, 60)}` under the broadcast predicate"
         run.ob("R-blank", fi.qual, "eigenvectors blanked with the same predicate on the same eigenvalue array", same,
-               f"`{astq.src(wp[0].args[0], 60)}` vs `{astq.src(wl[0].args[0], 60)}`", witness=astq.src(wp[0].args[0], 60), file=f, node=r)
-        # column selected by the same index as the eigenvalue
-        kept = wp[0].args[2]
-        okc = isinstance(kept, ast.Subscript) and isinstance(ip, ast.Subscript) and len(astq.index_elts(kept)) == 2 and astq.is_full_slice(astq.index_elts(kept)[0]) \
-            and astq.dump(astq.index_elts(kept)[1]) == astq.dump(ip.slice)
-        isvec = isinstance(kept, ast.Subscript) and "eig(" in astq.src(kept.value) and astq.src(kept.value).endswith("[1]")
-        run.ob("R-blank", fi.qual, "eigenvector column index = eigenvalue index", bool(okc and isvec), f"kept `{astq.src(kept, 60)}` under `{astq.src(ip, 40) if ip is not None else None}`",
-               witness=astq.src(kept, 60), file=f, node=r)
+               f"`{astq.src(cp, 60)}` vs `{astq.src(cl, 60)}`", witness=astq.src(cp, 60), file=f, node=r)
+        run.ob("R-blank", fi.qual, "eigenvector column index = eigenvalue index", okc, why_c, witness=astq.src(kept, 60), file=f, node=r)
+    def wheres(e):
+        return _blank_sites(prog, pf, e)
     fnx = astq.expr_at(pf, r, r.value.elts[0])
     uses_blanked = bool(wheres(fnx))
     run.ob("R-blank", fi.qual, "fn/xi are formed from the blanked eigenvalues", uses_blanked, "fn derives from the np.where result" if uses_blanked else "fn derives from the un-blanked eigenvalues", witness="unblanked", file=f, node=r)
@@ -102,6 +169,7 @@ def gram(prog, run):
         return
     loop = loops[0]
     nvar = loop.target.id
+    variant = astq.loop_variant_names(loop)
     n_sites = 0
     # (a) a sliced inverse is not the inverse of the sliced matrix
     for sub in ast.walk(fi.node):
@@ -116,7 +184,7 @@ def gram(prog, run):
         if isinstance(c, ast.Call) and astq.callee_name(prog, fi, c) in INVS + SOLVES and c.args:
             inside = any(x is c for x in ast.walk(loop))
             x = astq.expr_at(fi, c, c.args[0])
-            dep = any(isinstance(z, ast.Name) and z.id == nvar for z in ast.walk(x))
+            dep = any(isinstance(z, ast.Name) and z.id in variant for z in ast.walk(x)) or any(isinstance(z, ast.Name) and z.id in variant for z in ast.walk(c.args[0]))
             n_sites += 1
             if inside:
                 run.ob("R-gram", fi.qual, "matrix inverted in the order loop is built for that order", dep,
